@@ -12,10 +12,79 @@ from .report import Ctx, finish, VERIF
 from . import rules as rules_pkg
 
 
+def _run_rule_on_views(prop, tier, views, rid, fn, known):
+    """Evaluate one rule on every view of the program and merge the results.
+
+    A failing obligation is *excused* when another (semantics-preserving) view of the same program discharges it:
+    either the same (rule, instance) holds there, or that instance does not exist there and the view reports no
+    failure for that rule label at all.  Known findings are never excused (they stay visible)."""
+    from .report import match_known
+    res = []
+    for vname, proj in views:
+        sub = Ctx(prop, proj, tier)
+        try:
+            fn(sub)
+            res.append((vname, sub, None))
+        except AnalysisError as e:
+            res.append((vname, sub, e))
+    usable = [(v, c) for v, c, e in res if e is None]
+    if not usable:
+        raise res[0][2]
+    info = {}
+    for v, c in usable:
+        fails = [o for o in c.obligations if not o.holds]
+        info[v] = {
+            "fail_keys": {(o.rule, o.instance) for o in fails},
+            "all_keys": {(o.rule, o.instance) for o in c.obligations},
+            "rule_has_new_failure": {o.rule for o in fails if not match_known(prop, o, known)},
+        }
+
+    def excused(o, own):
+        if match_known(prop, o, known):
+            return False
+        key = (o.rule, o.instance)
+        for v, c in usable:
+            if v == own:
+                continue
+            i = info[v]
+            if key in i["all_keys"] and key not in i["fail_keys"]:
+                return v
+            if key not in i["all_keys"] and o.rule not in i["rule_has_new_failure"]:
+                return v
+        return False
+
+    base_v, base = usable[0]
+    merged = []
+    for o in base.obligations:
+        if not o.holds:
+            v = excused(o, base_v)
+            if v:
+                o.holds = True
+                o.message = f"discharged on the {v} view (the {base_v} view reported: {o.message[:120]})"
+        merged.append(o)
+    have_fail = {(o.rule, o.instance) for o in merged if not o.holds}
+    for v, c in usable[1:]:
+        for o in c.obligations:
+            if not o.holds and (o.rule, o.instance) not in have_fail and not excused(o, v):
+                if match_known(prop, o, known) and (o.rule, o.construct) in {(x.rule, x.construct) for x in merged}:
+                    continue
+                o.message = f"[{v} view] {o.message}"
+                merged.append(o)
+                have_fail.add((o.rule, o.instance))
+    errs = [f"{v}: {e}" for v, _, e in res if e is not None]
+    return merged, base, errs
+
+
 def run_property(prop: str, tier: str, repo: str, overlay=None, *, write_evidence=True, quiet=False,
                  only_rule: str | None = None, evidence_dir=None):
     """Returns (exit_code, ctx)."""
+    from .report import load_known
     project = Project(repo, overlay)
+    views = [("raw", project)]
+    if not os.environ.get("FORMULINT_RAW_ONLY"):
+        from .normalize import Normalizer
+        views.append(("normalised", Project(repo, overlay, normalizer=Normalizer(project))))
+    known = load_known()
     mod = rules_pkg.load(prop)
     ctx = Ctx(prop, project, tier)
     todo = list(mod.RULES)
@@ -25,8 +94,14 @@ def run_property(prop: str, tier: str, repo: str, overlay=None, *, write_evidenc
         if only_rule and rid != only_rule:
             continue
         ctx.rules_run.append(rid)
-        fn(ctx)
-    extra = {}
+        merged, base, errs = _run_rule_on_views(prop, tier, views, rid, fn, known)
+        ctx.obligations += merged
+        ctx.inspected += base.inspected
+        ctx.floors += base.floors
+        ctx.notes += base.notes
+        for e in errs:
+            ctx.notes.append(f"{rid}: view not usable — {e}")
+    extra = {"views": [v for v, _ in views]}
     if tier == "thorough" and overlay is None and not only_rule:
         from . import selftest
         extra["self_validation"] = selftest.run_for(prop, repo)
